@@ -4,15 +4,27 @@ From Verif Require Import Base.Word64 Model.Expiry Model.Store Proof.StoreMap Pr
 Import ListNotations.
 Open Scope Z_scope.
 
-(* admission probability 1, room in the hand-off queue: a capacity eviction of an entry that the
-   secondary tier does not already hold (flag cleared by any update — F15a/F15d fixes) hands it to
-   the worker, notifies nobody yet, and leaves it readable in the map *)
+(* admission probability 1, room in the hand-off queue: a capacity eviction of an entry hands it to
+   the worker, notifies nobody yet, and leaves it readable in the map — unless the entry was promoted
+   from the secondary tier (f_nvm) and has not been overwritten since (f_dirty), i.e. unless that
+   tier already holds the identical value *)
 Theorem c15_eviction_hands_off : forall s id now e,
-  get_ent s id = Some e -> hyb s = true -> f_nvm e = false -> Z.of_nat (length (hand s)) < 256 ->
+  get_ent s id = Some e -> hyb s = true -> f_nvm e && negb (f_dirty e) = false -> Z.of_nat (length (hand s)) < 256 ->
   let s' := fst (removeEntry s id reasonEVICTED now) in
   hand s' = hand s ++ [id] /\ smap s' = smap s /\ snd (removeEntry s id reasonEVICTED now) = [].
 Proof. exact eviction_hands_off. Qed.
 Print Assumptions c15_eviction_hands_off.
+
+(* a user write that overwrites a resident entry in place marks it inside the same shard section,
+   i.e. before any policy event of that write exists: whatever the later delivery order, an eviction
+   of that entry meets the hypothesis of c15_eviction_hands_off (the defect repaired here was the
+   mark being cleared only when the UPDATE event was processed) *)
+Theorem c15_overwrite_marks_dirty : forall s k v cost expire now h dk id e,
+  sclosed s = false -> map_get (smap s) k = Some id -> get_ent s id = Some e ->
+  exists e', get_ent (fst (fst (set_section s k v cost expire now h dk false))) id = Some e' /\
+             f_dirty e' = true /\ sval e' = v /\ sweight e' = cost.
+Proof. exact overwrite_marks_dirty. Qed.
+Print Assumptions c15_overwrite_marks_dirty.
 
 (* the worker writes the entry's current value, cost and deadline (with or without TTL) to the
    secondary tier before it disappears from memory; if the secondary Set fails the error handler is
